@@ -1,7 +1,7 @@
 """Glue between the abstract directory of spec/Index.tla and a real notes directory.
 
 Abstract page p  <->  file PAGE_FILE[p];  abstract note  <->  one item
-    <kind>[ <prio>]<gap spaces>[<md YYMMDD> ][<zid> ][<ld YYYY-MM-DD> ]u<uid>v<ver>
+    <kind>[ <prio>]<gap spaces>[<md YYMMDD> ][<zid> ][<ld YYYY-MM-DD> ]u<uid>v<ver> q::u<uid> +t<uid>
     [  * b<uid>v<ver>]                       (second line when nl = 2)
 Day d <-> BASE + (d - 1).  Abstract ZID <<day, n>> <-> a real ZID of that day; which one is
 don't-care: both sides are compared after canonical relabelling (per day, order of first
@@ -45,9 +45,10 @@ def d10(d: int) -> str:
 
 
 _ITEM = re.compile(r"^(?P<kind>[-ox~<>])(?: (?P<prio>P\d))?(?P<gap> +)(?:(?P<md>\d{6}) )?(?:(?P<zid>\d{6}#\w{2,3}) )?"
-                   r"(?:(?P<ld>\d{4}-\d\d-\d\d) )?u(?P<uid>\d+)v(?P<ver>\d)$")
+                   r"(?:(?P<ld>\d{4}-\d\d-\d\d) )?u(?P<uid>\d+)v(?P<ver>\d) q::u(?P<quid>\d+) \+t(?P<tuid>\d+)$")
 _CONT = re.compile(r"^  \* b(?P<uid>\d+)v(?P<ver>\d)$")
 _BODY = re.compile(r"^(?:(?P<md>\d{6}) )?(?:(?P<zid>\d{6}#\w{2,3}) )?(?:(?P<ld>\d{4}-\d\d-\d\d) )?u(?P<uid>\d+)v(?P<ver>\d)"
+                   r" q::u(?P<quid>\d+) \+t(?P<tuid>\d+)"
                    r"(?P<cont>\n  \* b(?P<cuid>\d+)v(?P<cver>\d))?$")
 CORRUPT = "Corrupt"
 
@@ -88,6 +89,7 @@ class Dir:
         if n["ld"]:
             words.append(d10(n["ld"]))
         words.append(f"u{n['uid']}v{n['ver']}")
+        words += [f"q::u{n['uid']}", f"+t{n['uid']}"]        # every note owns a property and a tag nobody else has
         line = n["kind"] + (f" {n['prio']}" if n["prio"] else "") + " " * n["gap"] + " ".join(words) + "\n"
         if n["nl"] == 2:
             line += f"  * b{n['uid']}v{n['ver']}\n"
@@ -128,7 +130,7 @@ class Dir:
         i = 0
         while i < len(lines):
             m = _ITEM.match(lines[i])
-            if not m:
+            if not m or not (m["uid"] == m["quid"] == m["tuid"]):
                 return CORRUPT
             n = {"uid": int(m["uid"]), "zid": m["zid"] or "", "ver": int(m["ver"]), "kind": m["kind"], "prio": m["prio"] or "",
                  "md": _day6(m["md"]) if m["md"] else 0, "ld": _day10(m["ld"]) if m["ld"] else 0, "gap": len(m["gap"]), "nl": 1}
@@ -171,8 +173,11 @@ class Dir:
             bad = None
             for r in sorted((r for r in rows if r["page_path"] == f), key=lambda r: (r["line_no"], r["id"])):
                 m = _BODY.match(r["body"])
-                if not m:
+                if not m or not (m["uid"] == m["quid"] == m["tuid"]):
                     bad = CORRUPT + ":body " + repr(r["body"])
+                    break
+                if r["properties"].get("q") != "u" + m["uid"] or ("t" + m["uid"]) not in r["projects"]:
+                    bad = CORRUPT + f":row of u{m['uid']} lost its own property / tag: {r['properties']} {r['projects']}"
                     break
                 kind = bp.NOTE_TYPE_CHAR[r["todo_status"]] if r["todo_status"] else "-"
                 notes.append({
